@@ -1,6 +1,7 @@
 package props
 
 import (
+	"io"
 	"errors"
 	"fmt"
 	"net/http"
@@ -16,7 +17,7 @@ import (
 func init() {
 	register(&Prop{
 		ID: "C14", Level: "fault_enumeration",
-		Rule: "one case = a generated history of 1-7 calls on the Context's ResponseWriter from {WriteHeader (final, informational 1xx, 101, repeated), Write, WriteString, ReadFrom, FlushError, Push, SetReadDeadline, SetWriteDeadline, EnableFullDuplex, Hijack, Context.String/Blob/Stream/Redirect} executed by a real route handler behind ServeHTTP (the request carries a drawn Content-Type of its own or none) over a simulated connection whose capability set is drawn from {ReaderFrom, Flusher|FlushError, Hijacker+Pusher+deadlines+full duplex}; for each history the byte position at which the connection starts failing is enumerated over every byte boundary (and no failure), and the failure position of the ReadFrom/Stream source likewise; after every call Status/Size/Written are compared with the connection's own log (first final status received, bytes accepted, final header or byte received), return values with the bytes accepted during the call, and the whole run is repeated with ReaderFrom toggled (answers must not depend on the fast path); after every history a plain request is served from the recycled context and must start clean and reach the connection (201, two bytes). Connection invariants: at most one final header, none after body bytes, bytes in order. Non-trivial: the history wrote body bytes and at least one enumerated fault fired inside it; distinct = hash of (history, capabilities).",
+		Rule: "one case = a generated history of 1-7 calls on the Context's ResponseWriter from {WriteHeader (final, informational 1xx, 101, repeated), Write, WriteString, ReadFrom, FlushError, Push, SetReadDeadline, SetWriteDeadline, EnableFullDuplex, Hijack, Context.String/Blob/Stream/Redirect} executed by a real route handler behind ServeHTTP (the request carries a drawn Content-Type of its own or none) over a simulated connection whose capability set is drawn from {ReaderFrom, Flusher|FlushError, Hijacker+Pusher+deadlines+full duplex}; for each history the byte position at which the connection starts failing is enumerated over every byte boundary (and no failure), and the failure position of the ReadFrom/Stream source likewise; after every call Status/Size/Written are compared with the connection's own log (first final status received, bytes accepted, final header or byte received), return values with the bytes accepted during the call, and the whole run is repeated with ReaderFrom toggled (answers must not depend on the fast path); after every history a plain request is served from the recycled context and must start clean and reach the connection (201, two bytes). Finally 2-3 tasks stream distinct bytes (Context.Stream / ReadFrom from plain chunked readers) into connections that yield when a write arrives: every connection receives exactly its own bytes in order. Connection invariants: at most one final header, none after body bytes, bytes in order. Non-trivial: the history wrote body bytes and at least one enumerated fault fired inside it; distinct = hash of (history, capabilities).",
 		Run:  runC14, Quick: 12000, Thorough: 2000000,
 		Real:   []string{"recorder ResponseWriter (response_writer.go)", "Context helpers String/Blob/Stream/Redirect", "ServeHTTP dispatch and context pooling"},
 		Stub:   []string{"net/http connection: simulated connection with injected short writes and errors", "io.Reader sources with injected failures"},
@@ -385,9 +386,94 @@ func runC14(src sim.Source, o Opts) *Result {
 		}
 	}
 	res.add("faults_fired", fired)
+	// overlapping streamed responses: 2-3 tasks stream distinct bytes through Context.Stream / ReadFrom from plain readers
+	// into connections under the seeded scheduler; every connection yields when a write arrives, i.e. while the sender's
+	// copy buffer is in flight. Every body byte is forwarded in order, whatever other requests do meanwhile.
+	if !res.failed() {
+		s := sim.NewSched(src)
+		drawPolicy(src, s)
+		nt := 2 + src.Intn("streamtasks", 2)
+		conns := make([]*world.Conn, nt)
+		wants := make([]string, nt)
+		ccaps := world.NormCaps(world.Caps{ReaderFrom: src.Intn("streamrf", 4) == 0, Flusher: sim.Bool(src, "fl")})
+		for t := 0; t < nt; t++ {
+			t := t
+			n := 1 + src.Intn("streamlen", 600)
+			wants[t] = strings.Repeat(string(rune('A'+t)), n)
+			conns[t] = world.NewConn()
+			conns[t].OnWrite = func() { s.Yield(sim.PtUser) }
+			viaStream := sim.Bool(src, "viastream")
+			chunk := 1 + src.Intn("chunk", 64)
+			s.Go(fmt.Sprintf("stream%d", t), func(*sim.Task) {
+				log := &world.ReqLog{Inner: func(c fox.Context, _ *world.Hit) {
+					rd := &chunkReader{data: wants[t], chunk: chunk, yield: func() { s.Yield(sim.PtHandler) }}
+					if viaStream {
+						_ = c.Stream(200, "application/x-sim", rd)
+					} else {
+						_, _ = c.Writer().ReadFrom(rd)
+					}
+				}}
+				w.R.ServeHTTP(conns[t].Wrap(ccaps), world.NewRequest("GET", "", "/w", "", "", log))
+			})
+		}
+		out := s.Run()
+		res.Steps += s.Steps
+		res.add("context_switches", s.Switches)
+		res.Checks++
+		if out.Kind != sim.Done {
+			res.Leaked = s.Leaked()
+			res.fail("C14/concurrent", "overlapping streams: scheduler ended with %s %s", out.Kind, out.Detail)
+			return res
+		}
+		for _, tk := range s.Tasks {
+			if tk.Panic != nil {
+				res.Stack = tk.PanicStack
+				res.fail("C14/panic", "overlapping streams: task %s panicked: %v", tk.Name, tk.Panic)
+				return res
+			}
+		}
+		for t := range conns {
+			if string(conns[t].Body) != wants[t] {
+				res.fail("C14/concurrent", "overlapping streams over %+v: connection %d received %d bytes %q..., expected %d times %q", ccaps, t, len(conns[t].Body), clip(string(conns[t].Body), 24), len(wants[t]), wants[t][:1])
+				return res
+			}
+		}
+	}
 	res.Nontrivial = wroteBody && fired > 0
 	res.CaseKey = hashStrings(append(desc, fmt.Sprintf("%+v", caps), reqCT)...)
 	res.Hash = hashStrings(fmt.Sprint(res.Checks), fmt.Sprint(desc), fmt.Sprint(caps))
 	res.Steps = len(steps)
 	return res
+}
+
+// chunkReader is a plain io.Reader (no WriterTo) that hands out its data in small chunks and yields between them.
+type chunkReader struct {
+	data  string
+	chunk int
+	pos   int
+	yield func()
+}
+
+func (r *chunkReader) Read(p []byte) (int, error) {
+	if r.pos >= len(r.data) {
+		return 0, io.EOF
+	}
+	r.yield()
+	n := r.chunk
+	if n > len(p) {
+		n = len(p)
+	}
+	if n > len(r.data)-r.pos {
+		n = len(r.data) - r.pos
+	}
+	copy(p, r.data[r.pos:r.pos+n])
+	r.pos += n
+	return n, nil
+}
+
+func clip(s string, n int) string {
+	if len(s) > n {
+		return s[:n]
+	}
+	return s
 }
